@@ -6,6 +6,7 @@ import os, re, shutil, subprocess, sys, json, glob
 REPO = '/tmp/c19gen-repo'
 U = 'biom/util.py'
 T = 'biom/table.py'
+R = 'biom/cli/table_summarizer.py'
 RET = "        return (min(counts),\n                max(counts),\n                median(counts),\n                mean(counts),\n                sample_counts)"
 EDITS = [
  ('swap-min-max', 'semantic', 'min and max change places in the result', U,
@@ -36,6 +37,17 @@ EDITS = [
   "(len(self.ids()) * len(self.ids(axis='observation')))", "(self.shape[0] * self.shape[1])"),
  ('pinned-nnz', 'reject', 'the property nnz (pinned, stands behind tb_nnz) no longer eliminates stored zeros', T,
   "        self._data.eliminate_zeros()\n        return self._data.nnz", "        return self._data.nnz"),
+ ('report-swap-labels', 'semantic', '_summarize_table, plain mode: the two counts printed under each other\'s label', R,
+  "        lines.append('Num samples: ' + locale.format_string('%d',\n                     num_samples, grouping=True))\n        lines.append('Num observations: ' + locale.format_string('%d',\n                     num_observations, grouping=True))",
+  "        lines.append('Num samples: ' + locale.format_string('%d',\n                     num_observations, grouping=True))\n        lines.append('Num observations: ' + locale.format_string('%d',\n                     num_samples, grouping=True))"),
+ ('report-total-always', 'semantic', '_summarize_table: total and density also in qualitative mode', R, "    if not qualitative:\n        total_count", "    if True:\n        total_count"),
+ ('report-last-keys', 'semantic', '_summarize_table: sample metadata keys taken from the LAST entry... written as the observation ones', R,
+  "        sample_md_keys = table.metadata()[0].keys()", "        sample_md_keys = table.metadata(axis='observation')[0].keys()"),
+ ('report-no-transpose', 'semantic', '_summarize_table --observations no longer transposes', R, "    if observations:\n        table = table.transpose()\n", "    if observations:\n        table = table\n"),
+ ('report-median-is-mean', 'semantic', '_summarize_table: the Median line prints mean_counts', R, "                 median_counts, grouping=True))", "                 mean_counts, grouping=True))"),
+ ('report-unsorted', 'semantic', '_summarize_table: detail lines in table order (no sort)', R, "in sorted(counts_per_samp.items(), key=itemgetter(1)):", "in counts_per_samp.items():"),
+ ('report-rename', 'preserving', '_summarize_table: local num_samples renamed', R, "num_samples", "n_samp"),
+ ('report-round', 'reject', '_summarize_table: round(mean_counts) (call outside the signature)', R, "                 mean_counts, grouping=True))", "                 round(mean_counts), grouping=True))"),
  ('pinned-iter', 'reject', 'Table.iter (pinned, stands behind table_iter) defaults to the observation axis', T,
   "    def iter(self, dense=True, axis='sample'):", "    def iter(self, dense=True, axis='observation'):"),
 ]
@@ -45,16 +57,16 @@ os.makedirs('/tmp/c19gen', exist_ok=True)
 for name, group, what, f, old, new in EDITS:
     if names and name not in names:
         continue
-    for g in (U, T):
+    for g in (U, T, R):
         shutil.copy('/repo/' + g, REPO + '/' + g)
     s = open(REPO + '/' + f).read()
-    assert s.count(old) == 1, (name, s.count(old))
+    assert s.count(old) == 1 or name == 'report-rename', (name, s.count(old))
     open(REPO + '/' + f, 'w').write(s.replace(old, new))
     env = dict(os.environ, BIOM_REPO=REPO, VERIF_OUT='/tmp/c19gen-out')
     p = subprocess.run(['./check', 'C19'], cwd='/verif', env=env, capture_output=True, text=True)
     out = p.stdout + p.stderr
     open('/tmp/c19gen/%s.log' % name, 'w').write(out)
-    diff = subprocess.run(['git', 'diff', '--quiet', '--', 'coq/Gen/SummaryGen.v', 'coq/Gen/SummaryTableGen.v'], cwd='/verif').returncode
+    diff = subprocess.run(['git', 'diff', '--quiet', '--', 'coq/Gen/SummaryGen.v', 'coq/Gen/SummaryTableGen.v', 'coq/Gen/SummaryReportGen.v'], cwd='/verif').returncode
     broke = ''
     rep = {}
     m = re.search(r'VIOLATION property=C19 replay=(\S+)', out)
@@ -66,7 +78,7 @@ for name, group, what, f, old, new in EDITS:
     refused = [str(b) for b in rep.get('broken', []) if 'translator rejected' in str(b)]
     out2 = out
     if p.returncode and not refused:
-        q = subprocess.run('ulimit -v 8000000; timeout 300 coqc -Q . BiomV Gen/SummaryGen.v && timeout 300 coqc -Q . BiomV Proofs/GenBridgeSummaryProofs.v && timeout 300 coqc -Q . BiomV Gen/SummaryTableGen.v && timeout 300 coqc -Q . BiomV Proofs/GenBridgeSummaryTableProofs.v && timeout 300 coqc -Q . BiomV Props/C19.v',
+        q = subprocess.run('ulimit -v 8000000; timeout 300 coqc -Q . BiomV Gen/SummaryGen.v && timeout 300 coqc -Q . BiomV Proofs/GenBridgeSummaryProofs.v && timeout 300 coqc -Q . BiomV Gen/SummaryTableGen.v && timeout 300 coqc -Q . BiomV Proofs/GenBridgeSummaryTableProofs.v && timeout 300 coqc -Q . BiomV Gen/SummaryReportGen.v && timeout 300 coqc -Q . BiomV Proofs/GenBridgeSummaryReportProofs.v && timeout 300 coqc -Q . BiomV Props/C19.v',
                            shell=True, cwd='/verif/coq', capture_output=True, text=True)
         out2 = q.stdout + q.stderr
     m = re.search(r'File "\./(Gen/Summary\w*Gen\.v|Proofs/GenBridgeSummary\w*Proofs\.v|Props/C19\.v)", line (\d+)', out2)
@@ -83,6 +95,6 @@ for name, group, what, f, old, new in EDITS:
     rows.append((name, group, what, 'REFUSES' if refused else 'accepts', 'differs' if diff else 'same text',
                  broke or (refused[0][:200] if refused else 'all proofs check'), ' | '.join(verdict)[:260], p.returncode, fail))
     print(rows[-1], flush=True)
-for g in (U, T):
+for g in (U, T, R):
     shutil.copy('/repo/' + g, REPO + '/' + g)
 json.dump(rows, open('/tmp/c19gen/rows.json', 'w'), indent=1)
